@@ -246,6 +246,20 @@ func exec(t *testing.T, w WL, cfg simrt.Config) simh.Outcome {
 			o.Counters["graphs_with_over_100000_nodes"]++
 		}
 	}
+	// the source matches its own dump: verification of the source database against the fresh manifest succeeds,
+	// in whatever order the source reports a node's kinds
+	{
+		vo := retriever.DefaultVerifyOptions(out)
+		vo.BatchSize = w.LoadBatch
+		var verr error
+		if c, d := stor.UnderSim(t, cfg, "verify-source", func() { _, verr = retriever.Verify(ctx, stor.Build(w.DB), "simdb", vo) }); c != "" {
+			return fail(c, d)
+		}
+		if verr != nil {
+			return fail("oracle:verify_rejected_match", "Verify of the source database against its own fresh dump failed: "+verr.Error())
+		}
+		o.Counters["verify_accepted_source"]++
+	}
 	if d := metricsDescribe(m, w.DB); d != "" {
 		return fail("oracle:manifest_metrics", d)
 	}
